@@ -347,3 +347,23 @@ impl Ctx {
         }
     }
 }
+
+/// Replay helper: print every violation of the re-executed case with a machine-readable
+/// signature line (the driver filters known findings on it). Returns true if none.
+pub fn print_replay(rep: &Report) -> bool {
+    for v in &rep.violations {
+        println!("REPLAY-SIGNATURE: {}", v.signature);
+        println!("  {}", v.detail);
+    }
+    rep.violations.is_empty()
+}
+
+static NOT_REPLAYABLE: std::sync::atomic::AtomicBool = std::sync::atomic::AtomicBool::new(false);
+/// The recorded case cannot be re-executed exactly (statistical verdict, input too large to
+/// store, reference-side randomness): the driver re-runs the leg with the recorded seed.
+pub fn not_replayable() {
+    NOT_REPLAYABLE.store(true, Ordering::SeqCst);
+}
+pub fn was_not_replayable() -> bool {
+    NOT_REPLAYABLE.load(Ordering::SeqCst)
+}
